@@ -177,6 +177,15 @@ class Module:
     if not os.environ.get('GINSA_NO_CANON'):
       from .canon import canonicalise
       self.renamed_locals = canonicalise(self.tree, name)
+      if not os.environ.get('GINSA_NO_NORMALIZE'):
+        try:
+          from .normalize import post_canon
+          t2 = post_canon(self.tree, name)
+          self.normalized = (self.normalized[0] + t2[0], self.normalized[1] + t2[1])
+          if t2 != (0, 0):
+            self.renamed_locals += canonicalise(self.tree, name)
+        except RecursionError:
+          pass
     for parent in ast.walk(self.tree):
       for child in ast.iter_child_nodes(parent):
         child.parent = parent
